@@ -153,6 +153,14 @@ def boxes_for(extents):
     return out
 
 
+def _slashed(arg):
+    if isinstance(arg, (list, tuple)):
+        return [_slashed(a) for a in arg]
+    if isinstance(arg, str) and not any(c in arg for c in "*?[") and os.path.isdir(arg):
+        return arg + "/"
+    return arg
+
+
 def check_dataset(col, scratch, writer, nparts, multi, thorough, seed, variant="int"):
     from spatialpandas.io import read_parquet_dask
     S = "synchronous"
@@ -193,9 +201,13 @@ def check_dataset(col, scratch, writer, nparts, multi, thorough, seed, variant="
     except Exception as ex:
         col.violation("write.raises", case0, f"{type(ex).__name__}: {str(ex)[:250]}")
         return
+    arg_plain = arg
     for geometry in (None, "pts"):
         active = geometry or "polys"            # default: first geometry column
         case = dict(case0, geometry=geometry)
+        # the second reading names every directory with a trailing slash (patterns stay as they are)
+        arg = _slashed(arg_plain) if geometry else arg_plain
+        case["path_spelling"] = "trailing_slash" if geometry else "plain"
         col.count("evaluations")
         try:
             r = read_parquet_dask(arg, geometry=geometry)
